@@ -61,10 +61,10 @@ theorem addPerm_has (now t : Nat) (ip : IP) (a : Alloc) : (⟨ip, now + t⟩ : P
 
 /-- after the CreatePermission loop has accepted every peer, each named IP has a permission expiring
     exactly one permission timeout from now (installed or refreshed alike) -/
-theorem permLoop_installs (c : Cfg) (now : Nat) (lid : Nat) : ∀ (peers : List (Option Addr)) (a : Alloc),
-    (permLoop c now lid peers a).2 = none →
-    (∀ p, some p ∈ peers → (⟨p.ip, now + c.permT⟩ : Perm) ∈ (permLoop c now lid peers a).1.perms) ∧
-    (∀ q ∈ a.perms, ∃ q' ∈ (permLoop c now lid peers a).1.perms, q'.ip = q.ip ∧
+theorem permLoop_installs (c : Cfg) (now : Nat) (k : Key) : ∀ (peers : List (Option Addr)) (a : Alloc),
+    (permLoop c now k peers a).2 = none →
+    (∀ p, some p ∈ peers → (⟨p.ip, now + c.permT⟩ : Perm) ∈ (permLoop c now k peers a).1.perms) ∧
+    (∀ q ∈ a.perms, ∃ q' ∈ (permLoop c now k peers a).1.perms, q'.ip = q.ip ∧
         (q' = q ∨ q'.expiry = now + c.permT)) := by
   intro peers
   induction peers with
@@ -123,7 +123,7 @@ theorem create_permission_installs (c : Cfg) (s : State) (k : Key) (sz tid : Nat
     rw [step_msg_accepted c s k sz _ hacc msg_ne_cb1]
     simp only [handle, hupd, findAlloc]
     refine ⟨_, find_set_self s k _, ?_⟩
-    exact (permLoop_installs c s.now k.lid peers a hl).1
+    exact (permLoop_installs c s.now k peers a hl).1
   · exact absurd ho (applyUpd_outs_not_resp _ _ _ _ _ _ _ _ _)
 
 /-- **ChannelBind restarts both timeouts**: after a success response for (n, p) the binding expires
@@ -209,7 +209,7 @@ theorem rebind_after_expiry (a : Alloc) (n : Nat) (p : Addr) (h1 : ∀ ch ∈ a.
 def cfg0 : Cfg :=
   { permT := 300 * sec, chanT := 600 * sec, lifeT := 3600 * sec, maxLife := 3600 * sec, rtpMTU := 1600
     inMTU := 1600, bindT := 30 * sec, resvT := 30 * sec, strict := false, hasAuth := true, hasQuota := false
-    relay4 := ⟨false, 1⟩, relay6 := ⟨true, 1⟩, lis := [⟨false, 1, false, []⟩] }
+    relay4 := ⟨false, 1⟩, relay6 := ⟨true, 1⟩, lis := [⟨false, 1, false, [], []⟩] }
 def okCred : Cred := ⟨true, true, true, true, true, true, true, "alice"⟩
 def k0 : Key := ⟨0, ⟨⟨false, 7⟩, 4000⟩⟩
 def peer0 : Addr := ⟨⟨false, 9⟩, 9000⟩
